@@ -156,8 +156,12 @@ fn c34_one(cl: &[Clause], mask: u32, session_first: bool) -> Vec<(String, String
             }
         } else {
             match &r {
+                // the property wants a rule set with recursion through negation REJECTED; session rules are only
+                // looked at when a query runs, so rejecting every query of a session that holds such rules is that
+                // rejection - also for a predicate that does not itself depend on the negative cycle
+                Err(_) if !bad.is_empty() => continue,
                 Err(e) => {
-                    out.push((format!("stratified_query_rejected:{mixed}"), format!("rule set [{}]: ?{h}(X) does not depend on any negative cycle but was rejected: {e}", desc(cl))));
+                    out.push((format!("stratified_query_rejected:{mixed}"), format!("rule set [{}] (stratified as a whole): ?{h}(X) was rejected: {e}", desc(cl))));
                     break;
                 }
                 Ok(q) => {
